@@ -4,14 +4,18 @@
        flt_eval (flt_emit R f) (row_of e) = Some TTrue  <->  flt_sat R f e = true
    where [row_of e] is the dataset row of the entity: metadata never NULL (coalesce), address_array = the segments of
    the address, sources_arrays / destinations_arrays = the exploded sources / destinations, one balance row per asset.
-   The faithful model of the unchanged code REFUTES it in five ways (witnesses below, each replayed on the real code by
-   the `filters` harness, see known_findings.d/filter.json):
+   The faithful model of the code REFUTES it in three ways that are NOT repaired (witnesses below, each replayed on the
+   real code by the `filters` harness, see known_findings.d/filter.json):
      - a `$not` above a comparison on an absent value (reference, reverted_at, balance[A] of an account without A):
        SQL NULL stays NULL under NOT, the entity is dropped                                  (C20_refuted_not_over_absent)
-     - bare `balance` on accounts: scalar sub-select over all assets ⇒ SQLSTATE 21000        (C20_refuted_bare_balance)
-     - `$in` on metadata[k]: emitted as containment of an ARRAY, never true                  (C20_refuted_in_on_metadata)
+     - bare `balance` on accounts: scalar sub-select over all assets => SQLSTATE 21000        (C20_refuted_bare_balance)
      - empty `$or`: Builder.Build emits "1 = 1"                                              (C20_refuted_empty_or)
-     - lateral push-down ignores `$in` address filters when a partial address is present    (C20_pushdown_refuted)
+   Four further defects found by this property were REPAIRED in /repo (fixes/01..04) and are now positive theorems:
+     - `$in` on the log `type` no longer panics: it is emitted as `type IN (..)`               (C20_log_type_in)
+     - `$exists` on balance is rejected by validation (was: panic)                            (C20_exists_on_balance_rejected)
+     - `$in` on metadata[k] is rejected by validation (was: selected nothing)                 (C20_in_on_metadata_rejected)
+     - the lateral push-down collects `$in` address arrays: with canPush the pre-filtered dataset lists exactly the
+       matching entities (was: refuted by `$or[partial, $in]`)                                (C20_pushdown)
    STRONGEST TRUE STATEMENTS: C20_emit_sound (two-valued, no nullable leaf), C20_emit_sound_partial (nullable leaves not
    below a `$not`; at most one asset for bare `balance`), both without any bound on depth, width or values. *)
 From Coq Require Import List ZArith String Bool.
@@ -46,13 +50,28 @@ Theorem C20_address_transactions : forall p a, pat_ok p = true -> is_partial p =
 Proof. exact tx_pat_contains. Qed.
 Print Assumptions C20_address_transactions.
 
-(* list = exactly the matching entities, count = length of the list (model level; no push-down in play) *)
+(* list = exactly the matching entities, count = length of the list (model level), first without push-down ... *)
 Theorem C20_list : forall R pit f es,
   flt_validate R f = FvOk -> flt_prefilter R pit f = None ->
   (forall e, In e es -> ent_kind R e = true /\ wf_entity e /\ pos_f R e f = true) ->
   flt_list R pit f es = FrOk (flt_ref R f es).
 Proof. exact list_sound. Qed.
 Print Assumptions C20_list.
+(* ... then C20_pushdown (DESIGN §9): whatever flt_prefilter decides — i.e. also when canPush (safe_lateral) holds and the
+   dataset is inner-joined with the accounts matching the OR of all collected address filters — the list is the same.
+   The key lemma (pushdown_covers): safe_lateral false f -> every entity satisfying f satisfies one collected address. *)
+Theorem C20_pushdown : forall R pit f es,
+  flt_validate R f = FvOk ->
+  (forall e, In e es -> ent_kind R e = true /\ wf_entity e /\ pos_f R e f = true) ->
+  flt_list R pit f es = FrOk (flt_ref R f es).
+Proof. exact list_sound_pushdown. Qed.
+Print Assumptions C20_pushdown.
+Theorem C20_pushdown_covers : forall R x f, (R = RVol \/ R = RAgg) ->
+  pos_f R (EVol x) f = true -> safe_lateral false f = true -> contains_addr f = true ->
+  flt_sat R f (EVol x) = true ->
+  existsb (fun p => addr_match p (fv_account x)) (collect_addrs f) = true.
+Proof. exact pushdown_covers. Qed.
+Print Assumptions C20_pushdown_covers.
 Theorem C20_count : forall R pit f es sel,
   flt_list R pit f es = FrOk sel -> flt_count R pit f es = Some (List.length sel).
 Proof. exact count_is_length. Qed.
@@ -78,11 +97,22 @@ Proof.
 Qed.
 Print Assumptions C20_refuted_bare_balance.
 
-Theorem C20_refuted_in_on_metadata :
-  exists f e, ent_kind RAcc e = true /\ flt_validate RAcc f = FvOk /\
-              flt_sat RAcc f e = true /\ flt_eval (flt_emit RAcc f) (row_of e) = Some TFalse.
-Proof. exists (FIn (KMeta "role") (VStrs ["v1"; "v2"])), (EAcc w_acc). vm_compute. repeat split. Qed.
-Print Assumptions C20_refuted_in_on_metadata.
+(* repaired (fixes/04): `$in` on metadata[k] is not a valid filter any more, on any resource *)
+Theorem C20_in_on_metadata_rejected : forall R k v, flt_validate R (FIn (KMeta k) v) = FvInvalid.
+Proof. intros R k v. destruct R; reflexivity. Qed.
+Print Assumptions C20_in_on_metadata_rejected.
+(* repaired (fixes/02): `$exists` on balance / balance[ASSET] is rejected by validation (it used to panic) *)
+Theorem C20_exists_on_balance_rejected : forall R v,
+  (forall a, flt_validate R (FExists (KBalance a) v) = FvInvalid) /\ flt_validate R (FExists KBalanceAny v) = FvInvalid.
+Proof. intros R v. split; [intros a|]; destruct R; reflexivity. Qed.
+Print Assumptions C20_exists_on_balance_rejected.
+(* repaired (fixes/01): `$in` on the log type is accepted and means membership (it used to panic) *)
+Theorem C20_log_type_in : forall l e,
+  flt_validate RLog (FIn KType (VStrs l)) = FvOk /\
+  flt_eval (flt_emit RLog (FIn KType (VStrs l))) (row_of (ELog e)) = Some (tri_of_bool (smem (fl_type e) l)) /\
+  flt_sat RLog (FIn KType (VStrs l)) (ELog e) = smem (fl_type e) l.
+Proof. intros l e. repeat split. Qed.
+Print Assumptions C20_log_type_in.
 
 Theorem C20_refuted_empty_or :
   exists e, flt_validate RTx (FOr []) = FvOk /\ flt_sat RTx (FOr []) e = false /\
@@ -90,22 +120,12 @@ Theorem C20_refuted_empty_or :
 Proof. exists (ETx w_tx). vm_compute. repeat split. Qed.
 Print Assumptions C20_refuted_empty_or.
 
-(* C20_pushdown (DESIGN §9): "the dataset with the lateral pre-filter selects the same rows as without" — refuted:
-   the `$in` branch of an `$or` is not collected, but the partial address of the other branch is pushed down *)
+(* the former witness of the push-down defect now lists its row (pre-filter = "bank:" OR 'bank:eu:1' OR 'bank:eu') *)
 Definition w_vol : vol_ent := mkVol "bank:eu:1" "EUR" 10 3 [] 100.
-Theorem C20_pushdown_refuted :
-  exists f es, flt_validate RVol f = FvOk /\ safe_lateral false f = true /\
-               flt_ref RVol f es = es /\ flt_list RVol false f es = FrOk [].
-Proof.
-  exists (FOr [FMatch KAccount (VStr "bank:"); FIn KAddress (VStrs ["bank:eu:1"; "bank:eu"])]), [EVol w_vol].
-  vm_compute. repeat split.
-Qed.
-Print Assumptions C20_pushdown_refuted.
-
-(* two accepted filters make ResolveFilter panic (ConvertOperatorToSQL: "unreachable") *)
-Example C20_panics :
-  flt_validate RLog (FIn KType (VStrs ["NEW_TRANSACTION"])) = FvPanic /\
-  flt_validate RAcc (FExists (KBalance "USD") (VInt 1)) = FvPanic.
+Example C20_pushdown_former_witness :
+  let f := FOr [FMatch KAccount (VStr "bank:"); FIn KAddress (VStrs ["bank:eu:1"; "bank:eu"])] in
+  flt_prefilter RVol false f = Some ["bank:"; "bank:eu:1"; "bank:eu"] /\
+  flt_list RVol false f [EVol w_vol] = FrOk [EVol w_vol].
 Proof. vm_compute. split; reflexivity. Qed.
 
 (* ---------------- non-vacuity: a depth-4 filter with partial, prefix and exact addresses, $in, metadata, reverted, a
